@@ -20,6 +20,39 @@ def is_binary(v):
     return v.cat == 'Integer' and v.lowBound == 0 and v.upBound == 1
 
 
+def point_is_feasible(prob, eps=1e-5):
+    """Does the point now in the variables satisfy every constraint, bound and
+    integrality requirement of *prob*?  Variables the back end never saw (all
+    coefficients zero, value None) are free and count as 0."""
+    try:
+        for v in prob.variables():
+            x = v.varValue
+            if x is None:
+                continue
+            if v.lowBound is not None and x < v.lowBound - eps:
+                return False
+            if v.upBound is not None and x > v.upBound + eps:
+                return False
+            if v.cat == 'Integer' and abs(round(x) - x) > eps:
+                return False
+        for c in prob.constraints.values():
+            val = c.constant
+            for v, coef in c.items():
+                if v.varValue is not None:
+                    val += coef * v.varValue
+            if c.sense == 0:
+                ok = abs(val) <= eps
+            elif c.sense < 0:
+                ok = val <= eps
+            else:
+                ok = val >= -eps
+            if not ok:
+                return False
+    except Exception:
+        return True
+    return True
+
+
 class VirtualClock:
     """Stands in for the `datetime` module inside matchingproblems.solver.solver."""
 
@@ -57,6 +90,7 @@ class LPTap:
         self.time_limit = None
         self.snapshot = None      # callable() -> matching tuple, set by the engine
         self.solver_used = None
+        self.backend_faults = 0
 
     def install(self):
         if self.installed:
@@ -86,6 +120,11 @@ class LPTap:
             _ORIG_SOLVE(prob, solver, **kw)
             if self.clock is not None:
                 self.clock.advance(0.001)
+            # trusted-base monitor: a point returned with status Optimal must satisfy
+            # the problem it was returned for (CBC 2.10.3 has been seen to violate this)
+            if prob.status == 1 and not point_is_feasible(prob):
+                ev['backend_fault'] = True
+                self.backend_faults += 1
             if (self.inject_rng is not None and prob.status == 1 and
                     prob.sol_status == 1):
                 ev['injected'] = self._tiebreak(prob, solver)
@@ -224,7 +263,7 @@ def pin_probe(prob, pair_vars, matchings, solver=None):
                 cp += (var == (1 if m[s - 1] == p else 0)), '__verif_pin_%d' % i
             _ORIG_SOLVE(cp, solver)
             if cp.status == 1:
-                out[m] = True
+                out[m] = True if point_is_feasible(cp) else None
             elif cp.status == -1:
                 out[m] = False
             else:
